@@ -62,18 +62,26 @@ def run_session(w, sc, mon):
         return
     v_bytes = ver.b("v")
     if ver.b("salt") != salt:
-        mon.inconc("salt injection ineffective (library draws its salt another way); C02 perturbation sweeps need pinned state")
-        return
+        mon.inconc("salt injection ineffective (the library draws its salt another way); the salt read from the accessor is used instead")
+        salt = ver.b("salt")
     w.script([sc["b"]])
     pr = w.call("ver_proof", h=1, into=3)
     if pr.status != "ok":
         viol("panic:ver_proof", str(pr.f))
         return
     B = pr.b("B")
-    srv = M.ServerSide(un, v_bytes, salt, b)
-    if srv.B_bytes != B:
-        mon.inconc("private-key injection ineffective on the server (B is not the model's for the scripted b)")
-        return
+    # the server-side model needs b: scripted value, else whatever reading of the logged draws explains B, else unknown
+    from sessions import key_candidates
+    srv = None
+    for cand in [bytes.fromhex(sc["b"])] + key_candidates(pr.rng):
+        t = M.ServerSide(un, v_bytes, salt, M.le(cand))
+        if t.B_bytes == B:
+            srv = t
+            b = M.le(cand)
+            break
+    if srv is None:
+        mon.inconc("server private key neither injectable nor attributable: decisions that need the server-side model (perturbed A, "
+                   "replays) are skipped; proof sweeps are judged against the accepted baseline (black-box mode)")
     w.script([sc["a"]])
     cl = w.call("cli_new", into=4, u=sc["cuser"], p=sc["cpw"], g=7, N=N_HEX, B=B, salt=salt)
     if cl.status != "ok":
@@ -81,11 +89,7 @@ def run_session(w, sc, mon):
         return
     A = cl.b("A")
     M1 = cl.b("M1")
-    cli = M.ClientSide(un, pn, a)
-    if cli.A_bytes != A:
-        mon.inconc("private-key injection ineffective on the client (A is not the model's for the scripted a)")
-        return
-    ms = srv.session(A)
+    ms = srv.session(A) if srv is not None else None
     # --- baseline must be accepted (this is C01 again, but it anchors the sweep)
     base = w.call("proof_server", h=3, keep=1, into=5, A=A, M1=M1)
     mon.ev()
@@ -95,6 +99,9 @@ def run_session(w, sc, mon):
     M2 = base.b("M2")
     K = base.b("K")
     mon.cell(("baseline",))
+    if ms is None:
+        # black-box mode: the accepted baseline defines the right values for the unperturbed A
+        ms = {"M1": M1, "M2": M2, "K": K}
 
     full = sc["perts"] == "full"
 
@@ -107,6 +114,9 @@ def run_session(w, sc, mon):
             return
         if r.status == "err" and r.f.get("stage") == "pk":
             mon.count("perturbed_A_refused_as_public_key")
+            return
+        if A_p != A and srv is None:
+            mon.count("decisions_skipped_without_server_model")
             return
         exp = srv.session(A_p) if A_p != A else ms
         accept = (M1_p == exp["M1"])
@@ -212,6 +222,9 @@ def run_session(w, sc, mon):
     client_decision("M2_correct", 0, M2)
     # the same account record, a fresh SrpProof (new b, new B): the recorded (A, M1) of the login above must be refused,
     # and an honest client answering the new B must be accepted
+    if srv is None:
+        mon.sample({"user": sc["user"], "pw": sc["pw"], "perts": sc["perts"], "mode": "black-box"})
+        return
     b2 = bytes(rnd.getrandbits(8) for _ in range(32))
     w.call("ver_db", into=11, u=sc["user"], v=v_bytes, salt=salt)
     w.script([b2])
